@@ -12,7 +12,9 @@ The documented probation rules, written from the doc comment of `RtpCandidateSta
 
 The rules are relations on the candidate table (no iteration order, no `min_by_key` / `max_by`,
 no branch order): a rule may admit several candidates where the comment leaves a tie open.
-The literals 2 and 3 are the comment's, not the generated constants of the code.
+The thresholds of rule 2 are read out of the COMMENT's text on every run (`docRule2MinConsecutive`,
+`docRule2MinTotal`), not out of the code; the order of the three rules in the comment is a generated
+obligation too (`const_layout`: marker = 1, run = 2, timeout = 3), so an edited comment re-opens the proofs.
 -/
 import RtcModel.Latch
 
@@ -25,7 +27,7 @@ def Rule1 (p : Prob) (c : Cand) : Prop :=
 
 /-- rule 2: two sequential steps from the candidate, at least three packets observed in all -/
 def Rule2 (p : Prob) (c : Cand) : Prop :=
-  c ∈ p.cands ∧ c.consecutive ≥ 2 ∧ p.total ≥ 3
+  c ∈ p.cands ∧ c.consecutive ≥ Generated.docRule2MinConsecutive ∧ p.total ≥ Generated.docRule2MinTotal
 
 /-- rule 3: window exhausted; highest packet count, ties broken by lowest `first_seq` -/
 def Rule3 (p : Prob) (c : Cand) : Prop :=
@@ -43,7 +45,8 @@ candidates with the same `first_seq`, at most one candidate with a run, no two c
 the same (`packet_count`, `first_seq`) -/
 def NoTies (p : Prob) : Prop :=
   (∀ c ∈ p.cands, ∀ d ∈ p.cands, c.hasMarker = true → d.hasMarker = true → c.firstSeq = d.firstSeq → c = d) ∧
-  (∀ c ∈ p.cands, ∀ d ∈ p.cands, c.consecutive ≥ 2 → d.consecutive ≥ 2 → c = d) ∧
+  (∀ c ∈ p.cands, ∀ d ∈ p.cands, c.consecutive ≥ Generated.docRule2MinConsecutive →
+      d.consecutive ≥ Generated.docRule2MinConsecutive → c = d) ∧
   (∀ c ∈ p.cands, ∀ d ∈ p.cands, c.packetCount = d.packetCount → c.firstSeq = d.firstSeq → c = d)
 
 end RtcModel.LatchSpec
